@@ -477,7 +477,7 @@ func hangClass(blocked []string) map[string]any {
 	switch {
 	case has("fileWaitRegistry).wait"):
 		return map[string]any{"class": "receiver-parks-on-chunk-or-request-for-finished-or-unknown-file"}
-	case has("vquic.(*Conn).AcceptStream") && has("RecvManifestMultiStream:") :
+	case has("vquic.(*Conn).AcceptStream") && has("RecvManifestMultiStream:"):
 		return map[string]any{"class": "receiver-main-blocked-in-AcceptStream"}
 	}
 	return map[string]any{"blocked": blocked}
